@@ -53,7 +53,7 @@ fn search(unit: &str, tag: &str, tier: &str) -> Option<Value> {
     match unit {
         "c19_queries" | "c19_cols" => c19::search(tag, tier),
         "c02_weakly" => c02::search(tag, tier),
-        "c04_pager" => c04::search(tag, tier).or_else(|| c02::search(tag, tier)),
+        "c04_pager" | "c02_itemset" => c04::search(tag, tier).or_else(|| c02::search(tag, tier)),
         "c07_lr" | "c06_moves" | "c06_dijkstra" => c07::search(tag, tier),
         "c12_header" => c12::search(tag, tier),
         "c12_lex" => c12::search_lex(tier),
